@@ -323,6 +323,8 @@ def meek_rules(rep, prog):
                     return only_raised(t[2]) and only_raised(t[3])
                 if t[0] == "bool" and t[1] == "or":
                     return any(x == muf for x in t[2])
+                if t[0] == "join":
+                    return all(only_raised(x) for x in t[1])
                 return False
             nx = il["next"][flag]
             okm = is_const(il["init"].get(flag), False) and only_raised(nx) and nx != muf and wl["next"].get(flag) == ("after", li_, flag)
@@ -366,6 +368,8 @@ def meek_rules(rep, prog):
                 return all(readable(x) for x in t[2])
             if t[0] == "unop" and t[1] in ("not", "truth"):
                 return readable(t[2])
+            if t[0] == "join":                  # one of several values, depending on how an (unrolled) inner loop was left
+                return all(readable(x) for x in t[1])
             return t[0] == "call" and t[1] in RULES
         if okm is None:
             pass
